@@ -38,6 +38,13 @@ pub struct Wal {
 
 	/// A flag indicating whether the WAL instance is closed or not.
 	closed: bool,
+
+	/// Set when an append to the active segment failed. Part of the record may
+	/// be in the file (or still in the write buffer) and the writer's block
+	/// position no longer matches the file: anything appended behind it could
+	/// not be read back. The segment takes no further records; the next
+	/// rotation starts a clean one.
+	append_failed: Option<String>,
 }
 
 impl Wal {
@@ -65,6 +72,7 @@ impl Wal {
 			dir: dir.to_path_buf(),
 			opts,
 			closed: false,
+			append_failed: None,
 		})
 	}
 
@@ -128,6 +136,7 @@ impl Wal {
 			dir: dir.to_path_buf(),
 			opts,
 			closed: false,
+			append_failed: None,
 		})
 	}
 
@@ -392,7 +401,20 @@ impl Wal {
 
 		log::trace!("WAL append: log_number={}, bytes={}", self.active_log_number, rec.len());
 
-		self.active_writer.add_record(rec)?;
+		if let Some(first) = &self.append_failed {
+			return Err(Error::IO(IOError::new(
+				io::ErrorKind::Other,
+				&format!(
+					"commit-log segment {} takes no more records after a failed append: {}",
+					self.active_log_number, first
+				),
+			)));
+		}
+
+		if let Err(e) = self.active_writer.add_record(rec) {
+			self.append_failed = Some(e.to_string());
+			return Err(e);
+		}
 
 		// Return 0 for now (offset tracking can be added if needed)
 		Ok(0)
@@ -471,6 +493,7 @@ impl Wal {
 			Self::create_writer(&self.dir, self.active_log_number, &self.opts)?;
 		self.active_writer = new_writer;
 		self.sync_fd = new_sync_fd;
+		self.append_failed = None;
 
 		// Fsync the directory to ensure new file is visible after crash
 		crate::lsm::fsync_directory(&self.dir)
